@@ -32,7 +32,8 @@ BadPseudoValues(name) ==
       [] name = N_AUTHORITY -> { <<>> }
       [] name = N_PATH -> { <<47, 32, 120>>, <<47, 1>>, <<>> }
       [] OTHER -> { <<>> }
-Extras(kind) == { <<N_HOST, <<97>>>>, <<N_HOST, <<98>>>>, <<N_HOST, <<>>>>, <<<<58, 120>>, <<49>>>>, <<N_PROTOCOL, <<119, 101, 98, 115, 111, 99, 107, 101, 116>>>> }
+Extras(kind) == { <<N_HOST, <<97>>>>, <<N_HOST, <<98>>>>, <<N_HOST, <<>>>>, <<N_HOST, <<65>>>>,   \* Host a / b / empty / A (differs from :authority only in case)
+                  <<<<58, 120>>, <<49>>>>, <<N_PROTOCOL, <<119, 101, 98, 115, 111, 99, 107, 101, 116>>>> }
                \cup (IF kind = "request" THEN { <<N_STATUS, <<50, 48, 48>>>> } ELSE { <<N_METHOD, GETm>>, <<N_PATH, <<47>>>> })
 
 Perturb(kind, fs) ==
